@@ -188,6 +188,20 @@ def of_unsigned_through_param(text):
     return False
 
 
+def real_reference_with_range(text):
+    """a reference to a type whose chain ends in REAL, used with a value constraint (not WITH COMPONENTS)"""
+    t = strip_comments(text)
+    first = {}
+    for n, rhs in parse_defs(t):
+        mm = re.match(r"(?:\[[^\]]*\]\s*(?:IMPLICIT\s+|EXPLICIT\s+)?)?([A-Za-z][\w-]*)", rhs)
+        if mm:
+            first[n] = mm.group(1)
+    real = {n for n, f in first.items() if f == "REAL"}
+    for _ in range(8):
+        real |= {n for n, f in first.items() if f in real}
+    return any(re.search(r"(?<![\w-])%s\s*\(\s*(?!WITH\b)" % re.escape(n), t) for n in real)
+
+
 def match_finding(stage, job):
     """-> finding id or None.  Each rule = symptom signature (the site) AND a predicate on (module text, options)."""
     text, opts = job["mod"]["text"], job["opts"]
@@ -217,6 +231,9 @@ def match_finding(stage, job):
             return "C10-instance-of-member-error-directive"
         if re.search(r"\b[\w-]+\.h: No such file", blog) and valueset_used_as_type(text):
             return "C10-valueset-type-as-member"
+        if re.search(r"asn_REAL2double.*incompatible pointer type|invalid operands to binary .* \(have .\w+_t. \{aka .struct ASN__PRIMITIVE_TYPE_s.\}", blog) \
+           and "-fwide-types" in opts and "-fno-constraints" not in opts and real_reference_with_range(text):
+            return "C10-real-reference-constraint-value-type"
         if re.search(r"unknown type name .asn_(Native)?REAL_specifics_t|.asn_(Native)?REAL_specifics_t. does not name a type", blog) and "-fwide-types" in opts and REAL_REF_NARROWED.search(strip_comments(text)):
             return "C10-real-reference-narrowed-to-float"
     if stage == "files-model":
@@ -384,14 +401,20 @@ def main(tier):
         run.violation("build:asn1c", {"what": str(e)[-2500:]}, no_input=True)
         return run.finish("translation_validation", (nthm, ndis))
     mods = corpus(rng, tier)
-    optsets = QUICK_OPTSETS if tier == "quick" else all_optsets()
+    # quick: the 4 option sets of round 1 + "-fwide-types" alone (wide types WITH constraint code), which only the numeric
+    # kinds of the reference sweep get: set 2 carries -fno-constraints, so the checker emitted for a constrained INTEGER / REAL
+    # reference under wide types was built in the thorough tier only (finding C10-real-reference-constraint-value-type)
+    optsets = (QUICK_OPTSETS + [("-fwide-types",)]) if tier == "quick" else all_optsets()
     jobs = []
     root = os.path.join(scr, "jobs")
     for mi, m in enumerate(mods):
         for oi, opts in enumerate(optsets):
             # thorough: asn1c runs under all 128 subsets for every module; the build + translator part runs for 16 of them
             # per module, rotating so that all subsets are built across the corpus
-            if tier == "quick" and m["origin"] in ("special", "multi", "grammar", "refs") and not m.get("all_optsets") and oi not in (mi % 2, 2 + (mi // 2) % 2):
+            if tier == "quick" and oi == 4:
+                if not (m["origin"] == "refs" and m.get("numeric")):
+                    continue
+            elif tier == "quick" and m["origin"] in ("special", "multi", "grammar", "refs") and not m.get("all_optsets") and oi not in (mi % 2, 2 + (mi // 2) % 2):
                 continue        # quick: generated modules get the 4 option sets, hand-made valid ones 2 of them in rotation
             if tier == "quick" and m["origin"] == "param" and oi not in (1, (3, 0, 2)[mi % 3]):
                 continue        # parameterized modules mostly need -fcompound-names (set 1); a second set in rotation
@@ -547,6 +570,8 @@ def main(tier):
             run.count("emitter-coverage:executed-lines", emitter_cov["executed_lines"])
             run.count("emitter-coverage:executable-lines", emitter_cov["executable_lines"])
             run.count("emitter-coverage:switch-arms-never-reached", sum(1 for v in emitter_cov["switch_arms"].values() if v == "NEVER"))
+            # kept beside the evidence file: a later quick run overwrites evidence/C10.json, not this
+            json.dump(dict(emitter_cov, tier=tier, seed=run.seed), open(os.path.join(VERIF, "evidence", "C10-emitter-coverage.json"), "w"), indent=1)
             print("C10: emitter coverage done at %.1fs: %d/%d lines of %s" % (time.time() - T0, emitter_cov["executed_lines"], emitter_cov["executable_lines"], emitter_cov["source"]), file=sys.stderr)
         except Exception as e:          # evidence only: never a verdict
             emitter_cov = {"error": str(e)[-800:]}
